@@ -222,6 +222,7 @@ def hooked_class():
 
     class HDag(DAGNode):
         ARM = None
+        OP = None
 
         def _peek(self, others):
             for x in [self] + [o for o in others if isinstance(o, DAGNode)]:
@@ -230,22 +231,22 @@ def hooked_class():
         def _DAGNode__pre_assign_parents(self, new_parents):
             self._peek(new_parents)
             if HDag.ARM == "pre":
-                raise RuntimeError("hook")
+                raise core.hook_exc(HDag.OP)
 
         def _DAGNode__post_assign_parents(self, new_parents):
             self._peek(new_parents)
             if HDag.ARM == "post":
-                raise RuntimeError("hook")
+                raise core.hook_exc(HDag.OP)
 
         def _DAGNode__pre_assign_children(self, new_children):
             self._peek(new_children)
             if HDag.ARM == "pre":
-                raise RuntimeError("hook")
+                raise core.hook_exc(HDag.OP)
 
         def _DAGNode__post_assign_children(self, new_children):
             self._peek(new_children)
             if HDag.ARM == "post":
-                raise RuntimeError("hook")
+                raise core.hook_exc(HDag.OP)
 
     _HOOKED["cls"] = HDag
     return HDag
@@ -282,6 +283,7 @@ def _noise_step(nodes, step, cls):
         a, b, m = step[2], step[3], step[4]
         if kind != "cyc":
             cls.ARM = kind[4:]
+            cls.OP = step
         try:
             _add_edge(nodes, a, b, m)
         except Exception:
